@@ -688,3 +688,22 @@ def qNameLex (t : Str) : Bool :=
   ncNameLex t || (colonSplits t).any fun pl => ncNameLex pl.1 && ncNameLex pl.2
 
 end EPV.XSD
+
+/-! ## xs:anyURI — XSD 1.1 Part 2 §3.3.17: the lexical space is every string (whiteSpace = collapse, identity mapping); RFC 3986
+is what the value is meant to be.  Two syntactic facts of RFC 3986 that every URI reference satisfies:
+`pct-encoded = "%" HEXDIG HEXDIG` is the only use of '%', and '#' occurs at most once (it starts the fragment, whose
+characters exclude '#'). -/
+namespace EPV.XSD
+
+/-- every '%' is followed by two hexadecimal digits -/
+def hexDigitPair : Str → Bool
+  | a :: b :: _ => isHexDigit a && isHexDigit b
+  | _ => false
+
+def pctEncodedOk : Str → Bool
+  | [] => true
+  | c :: r => (c != '%' || hexDigitPair r) && pctEncodedOk r
+
+def atMostOneHash (s : Str) : Bool := (s.filter (· == '#')).length ≤ 1
+
+end EPV.XSD
